@@ -44,6 +44,7 @@ func main() {
 		fs := flag.NewFlagSet("sweep", flag.ExitOnError)
 		repo := fs.String("repo", "/repo", "repository")
 		nocontracts := fs.Bool("inline", false, "ignore contracts (inline everything)")
+		funcsOnly := fs.Bool("funcs", false, "package-level functions only")
 		verbose := fs.Bool("v", false, "verbose")
 		fs.Parse(os.Args[2:])
 		p, err := gvc.Load(*repo, true)
@@ -55,6 +56,9 @@ func main() {
 		var specs []gvc.UnitSpec
 		for _, fn := range p.AllRepoFuncs() {
 			if !gvc.Exported(fn) {
+				continue
+			}
+			if *funcsOnly && fn.Signature.Recv() != nil {
 				continue
 			}
 			if len(fs.Args()) > 0 {
